@@ -5,12 +5,13 @@ so any number of these can run in parallel.
 
   driver/mutant_check.py NAME [--reverse] PATCH -- Cxx [--tier quick|thorough]
 
-NAME    your private sandbox name (e.g. c08 or c08-canary): /tmp/mut-NAME/{repo,harness,build,...}
-        is created on first use (git worktree of /repo HEAD + copy of /verif/harness with its path
-        dependencies rewritten + a copy of the warmed cargo target dir) and reused afterwards.
+NAME    a label for messages. The run takes a free slot of a fixed pool of 5 sandboxes
+        /tmp/mut-pool-K/{repo,harness,build,...} (git worktree of /repo HEAD + copy of
+        /verif/harness with its path dependencies rewritten + a copy of the warmed cargo target
+        dir, created on first use) and waits when all slots are busy: disk use stays bounded.
 PATCH   unified diff relative to the repository root (git apply); --reverse applies it with -R.
 Exit status = the check's (1 + VIOLATION line when the change is detected). Evidence / replays
-of the run land in /tmp/mut-NAME/{evidence,replays}, not in /verif."""
+of the run land in the sandbox (path printed), not in /verif."""
 import os
 import re
 import shutil
@@ -33,9 +34,28 @@ def main():
     chk = a[a.index("--") + 1:]
     reverse = "--reverse" in rest
     patch = os.path.abspath([x for x in rest if x != "--reverse"][0])
-    alt = "/tmp/mut-" + re.sub(r"[^A-Za-z0-9_-]", "_", name)
+    # a fixed pool of sandboxes bounds disk use (each holds a ~7 GB cargo target dir): take the
+    # first free slot, wait if all are busy. NAME is only used in messages.
+    import fcntl
+    import time
+    POOL = 5
+    lockf = None
+    while lockf is None:
+        for k in range(POOL):
+            f = open("/tmp/mut-pool-%d.lock" % k, "a")
+            try:
+                fcntl.flock(f, fcntl.LOCK_EX | fcntl.LOCK_NB)
+                lockf, alt = f, "/tmp/mut-pool-%d" % k
+                break
+            except OSError:
+                f.close()
+        if lockf is None:
+            time.sleep(5)
+    print("[mutant_check] %s: using sandbox %s" % (name, alt), flush=True)
     repo = os.path.join(alt, "repo")
     os.makedirs(alt, exist_ok=True)
+    for d in ("evidence", "replays"):
+        shutil.rmtree(os.path.join(alt, d), ignore_errors=True)
     head = run(["git", "-C", "/repo", "rev-parse", "HEAD"]).stdout.strip()
     if not os.path.isdir(repo):
         r = run(["git", "-C", "/repo", "worktree", "add", "--detach", repo, head])
